@@ -147,6 +147,9 @@ def render_def(prog, d):
             return "%s = (%s, %s)\n" % (rn(d), _lit(d["value"]["a"]), _lit(d["value"]["l"]))
         return "%s = %s\n" % (rn(d), _lit(d["value"]))
     if d["k"] == "alias":
+        if d.get("form") == "clone":
+            # a module-level modifier clone of a memento function (the identity for the un-memoized reference)
+            return "%s = verif_rt.fl(%s)\n" % (rn(d), _ref(prog, d["mod"], d["target"]))
         return "%s = %s\n" % (rn(d), _ref(prog, d["mod"], d["target"]))
     if d["k"] == "wrapper":
         return "%s = _verif_wrap(%s)\n" % (d["name"], d["target"])
@@ -163,6 +166,9 @@ def render_def(prog, d):
         # a module-level statement that asks a memento function for its version while the module is still being
         # executed (as `g = f.force_local()` or a call at import time would); None under the identity decorator
         return "%s = verif_rt.ver(%s)\n" % (d["name"], d["target"])
+    if d.get("lam"):
+        # a plain helper written as a module-level lambda (its __qualname__ is '<lambda>', whatever name it is bound to)
+        return "%s = lambda x: (%s if x <= 0 else %s)\n" % (rn(d), _rexpr(prog, d, d["base"], []), _rexpr(prog, d, d["body"], []))
     lines = []
     if d["memento"]:
         args = []
@@ -305,7 +311,7 @@ def bump_versions(prog, touched, tag):
 # ------------------------------------------------------------------------------------------
 
 EDIT_KINDS = ["lit", "nested", "pdef", "kwdef", "setmember", "tupmember", "var", "varmut", "retarget",
-              "hide", "unhide", "version", "addglob", "follow", "hidtarget", "varcopy"]
+              "hide", "unhide", "version", "addglob", "follow", "hidtarget", "varcopy", "realias"]
 
 
 def _sites(prog, kind):
@@ -374,6 +380,25 @@ def apply_edit(prog, edit, tag):
         cells = sorted(set([d["name"]] + bumped), key=order.index)
         return p, {"applied": True, "kind": "addglob", "target": d["name"], "target_mod": d["mod"], "cells": cells, "stmt": None,
                    "bumped": bumped, "target_is": "memento" if d["memento"] else "plain", "new_ref": v["name"]}
+    if edit["kind"] == "realias":
+        # a module-level alias is bound to another function (a plain assignment, nothing is re-defined)
+        # (not an alias that some body looks up dynamically: a hidden edge is invisible to the version, and the refusal of
+        # an undeclared callee only happens when the body runs - the same limitation as known finding hidden-plain-callee)
+        hidden_names = {e["f"] for f_ in fns(p) for e in exprs_of(f_) if e["e"] == "hidden"}
+        als = [d for d in p["defs"] if d["k"] == "alias" and d["name"] not in hidden_names]
+        if not als:
+            return p, {"applied": False, "kind": "realias"}
+        d = als[edit["site"] % len(als)]
+        cands = [c["name"] for c in fns(p) if c["name"] != resolve_fn(p, d["name"])["name"] and not c.get("late")
+                 and not c.get("fdef") and not c.get("declared") and c["mod"] == d["mod"]]
+        if not cands:
+            return p, {"applied": False, "kind": "realias"}
+        d["target"] = cands[edit.get("idx", 0) % len(cands)]
+        bumped = bump_versions(p, [d["name"]], tag)
+        order = [x["name"] for x in p["defs"]]
+        cells = sorted(set([d["name"]] + bumped), key=order.index)
+        return p, {"applied": True, "kind": "realias", "target": d["name"], "target_mod": d["mod"], "cells": cells, "stmt": None, "bumped": bumped,
+                   "target_is": "alias", "new_ref": d["target"]}
     sites = _sites(p, edit["kind"])
     if edit.get("target"):
         sites = [s_ for s_ in sites if s_[0]["name"] == edit["target"]]
@@ -464,7 +489,7 @@ def apply_edit(prog, edit, tag):
 # ------------------------------------------------------------------------------------------
 
 def program_strategy(max_fns=6, two_modules=True, allow_hidden=True, allow_explicit=True, allow_cluster=True,
-                     str_sets=True, allow_hidden_plain=False, allow_alias=True, explicit_f0=False, value_heavy=False, allow_fdef=False, allow_dictset=False, allow_init=False, allow_query=False, allow_tuplist=False, allow_declared=False, helper_heavy=False, allow_mut=False, allow_twins=False):
+                     str_sets=True, allow_hidden_plain=False, allow_alias=True, explicit_f0=False, value_heavy=False, allow_fdef=False, allow_dictset=False, allow_init=False, allow_query=False, allow_tuplist=False, allow_declared=False, helper_heavy=False, allow_mut=False, allow_twins=False, allow_keyclash=False):
     from hypothesis import strategies as st
 
     small = st.integers(0, 9)
@@ -618,6 +643,22 @@ def program_strategy(max_fns=6, two_modules=True, allow_hidden=True, allow_expli
                             body={"e": "add", "a": {"e": "x"}, "b": {"e": "glob", "n": tw["name"]}})
                 defs += [helper, twin]
                 root["body"] = {"e": "add", "a": root["body"], "b": {"e": "call", "f": "h9"}}
+        if allow_keyclash:
+            root = next(x for x in defs if x["k"] == "fn" and x["name"] == "f0")
+            which = draw(st.integers(0, 3))
+            if which == 1:
+                # two module-level lambdas, both called by the root
+                for li, cst in enumerate(draw(st.lists(small, min_size=2, max_size=2, unique=True))):
+                    defs.append({"k": "fn", "mod": root["mod"], "name": "lam%d" % li, "memento": False, "version": None, "cluster": None, "pdef": None,
+                                 "kwdef": None, "fdef": None, "lam": True, "base": {"e": "lit", "v": cst}, "body": {"e": "add", "a": {"e": "x"}, "b": {"e": "lit", "v": cst}}})
+                    root["body"] = {"e": "add", "a": root["body"], "b": {"e": "call", "f": "lam%d" % li}}
+            elif which == 2:
+                # a memento function and a module-level modifier clone of it, both called by the root
+                tg = [x for x in defs if x["k"] == "fn" and x["memento"] and x["name"] != "f0" and x["mod"] == root["mod"] and not x.get("fdef") and not x.get("declared")]
+                if tg:
+                    t = draw(st.sampled_from(tg))
+                    defs.append({"k": "alias", "form": "clone", "mod": root["mod"], "name": t["name"] + "_c", "target": t["name"]})
+                    root["body"] = {"e": "add", "a": {"e": "add", "a": root["body"], "b": {"e": "call", "f": t["name"]}}, "b": {"e": "call", "f": t["name"] + "_c"}}
         if allow_mut:
             for vi, vd in enumerate([x for x in defs if x["k"] == "var" and x["vtype"] in ("list", "dict", "tuplist")]):
                 if draw(st.booleans()):
@@ -638,7 +679,7 @@ def program_strategy(max_fns=6, two_modules=True, allow_hidden=True, allow_expli
 def edit_strategy():
     from hypothesis import strategies as st
     return st.builds(lambda k, s, dl, alt, idx: {"kind": k, "site": s, "delta": dl, "alt": alt, "idx": idx},
-                     st.sampled_from(EDIT_KINDS + ["lit", "pdef", "kwdef", "nested", "var", "retarget", "varcopy", "hidtarget"]),
+                     st.sampled_from(EDIT_KINDS + ["lit", "pdef", "kwdef", "nested", "var", "retarget", "varcopy", "hidtarget", "realias"]),
                      st.integers(0, 30), st.integers(1, 5), st.booleans(), st.integers(0, 5))
 
 
@@ -686,6 +727,10 @@ def features(prog):
         f.add("in-place-update-at-import")
     if any(d.get("rname") for d in prog["defs"]):
         f.add("same-name-in-two-modules")
+    if sum(1 for d in prog["defs"] if d.get("lam")) >= 2:
+        f.add("two-module-level-lambdas")
+    if any(d.get("form") == "clone" for d in prog["defs"]):
+        f.add("function-and-module-level-clone")
     return sorted(f)
 
 
